@@ -37,7 +37,7 @@ def run(ck: Check) -> None:
     c(ck)
     d(ck)
     ck.floor("A", 2)
-    ck.floor("B", 2)
+    ck.floor("B", 4)
     ck.floor("C", 3)
     ck.floor("D", 4)
 
@@ -196,6 +196,36 @@ def b(ck: Check) -> None:
                 probs.append("the seed is not taken from the recorded vertex set")
     ck.ob("B", fb, f.node, not probs, "; ".join(probs) if probs else "fallback: one (seed, set) pair per attractor, same order",
           key="fallback pairing")
+    # the two lists are index-aligned: neither is re-ordered on its own on the way to the return
+    for q in ("symbolic_attractor_fallback", "compute_attractors_symbolic"):
+        gm_ = ck.prog.fm(SYM, q)
+        probs = []
+        for r in own_walk(gm_.f.node):
+            if not (isinstance(r, ast.Return) and isinstance(r.value, ast.Tuple) and len(r.value.elts) == 2):
+                continue
+            rn_ = gm_.cfgn(r)
+            for x in r.value.elts:
+                if not isinstance(x, ast.Name):
+                    if isinstance(x, ast.Call) and callee_name(x) in ("sorted", "reversed"):
+                        probs.append(f"line {r.lineno}: `{text(x)[:50]}` re-orders one of the two parallel lists")
+                    continue
+                for d_, v_ in gm_.value_defs(x.id, rn_):
+                    v2 = v_
+                    while isinstance(v2, ast.Call) and callee_name(v2) in ("list", "tuple") and v2.args:
+                        v2 = v2.args[0]
+                    if isinstance(v2, ast.Call) and callee_name(v2) in ("sorted", "reversed"):
+                        probs.append(f"line {d_.lineno}: `{x.id}` is re-ordered (`{text(v_)[:50]}`) while the parallel list keeps "
+                                     f"the discovery order: sets[i] is no longer the attractor of seeds[i]")
+                    if isinstance(v2, ast.Subscript) and isinstance(v2.slice, ast.Slice) and v2.slice.step is not None:
+                        probs.append(f"line {d_.lineno}: `{x.id}` is re-ordered (`{text(v_)[:50]}`)")
+                for c_ in own_walk(gm_.f.node):
+                    if isinstance(c_, ast.Call) and isinstance(c_.func, ast.Attribute) and c_.func.attr in ("sort", "reverse") \
+                            and text(c_.func.value) == x.id:
+                        probs.append(f"line {c_.lineno}: `{text(c_)[:50]}` re-orders one of the two parallel lists in place")
+                    if isinstance(c_, ast.Call) and callee_name(c_) == "shuffle" and c_.args and text(c_.args[-1]) == x.id:
+                        probs.append(f"line {c_.lineno}: `{text(c_)[:50]}` re-orders one of the two parallel lists in place")
+        ck.ob("B", gm_, gm_.f.node, not probs, "; ".join(sorted(set(probs))) if probs else
+              "seeds and sets reach the return in the order in which the pairs were recorded", key=f"alignment {q}")
     # successors are excluded, the node's own space bounds the search
     probs = []
     init = [n for n in own_walk(f.node) if isinstance(n, ast.Assign) and text(n.targets[0]) == CAND
